@@ -317,6 +317,7 @@ func checkC19(r *Run) {
 func (c *Ctx) ruleErrorConstruction(rr *RuleRep) {
 	errT := types.Universe.Lookup("error").Type()
 	libErrTypes := map[string]bool{"Error": true, "errorWithRetry": true, "ConnectionError": true, "RequestTimeoutError": true}
+	var curRet *ssa.Return
 	var classify func(f *ssa.Function, v ssa.Value, depth int) (string, bool)
 	classify = func(f *ssa.Function, v ssa.Value, depth int) (string, bool) {
 		if depth > 6 {
@@ -330,6 +331,27 @@ func (c *Ctx) ruleErrorConstruction(rr *RuleRep) {
 		case *ssa.Parameter:
 			return "parameter passed through", true
 		case *ssa.Phi:
+			// what the join holds on the paths that reach this return (a private marker error that is translated before it
+			// can leave: `if err == errMarker { return wrapError(ErrX, …) }; return err`)
+			if curRet != nil && depth == 0 && x.Parent() == f {
+				if vs, reached := valuesAt(f, curRet, x); reached && len(vs) > 0 {
+					all := true
+					for _, lv := range vs {
+						if lv == ssa.Value(x) {
+							all = false
+							break
+						}
+					}
+					if all {
+						for _, lv := range vs {
+							if why, ok := classify(f, lv, depth+1); !ok {
+								return why, false
+							}
+						}
+						return "join of accepted values", true
+					}
+				}
+			}
 			for _, e := range x.Edges {
 				if e == ssa.Value(x) {
 					continue
@@ -404,7 +426,9 @@ func (c *Ctx) ruleErrorConstruction(rr *RuleRep) {
 					continue
 				}
 				v := c.RetVal(ret, i)
+				curRet = ret
 				why, ok := classify(f, v, 0)
+				curRet = nil
 				key := FuncName(f) + "/error-return"
 				if ok {
 					rr.OKt(key, ret.Pos(), "%s", why)
